@@ -95,7 +95,7 @@ def defs(u):
 
 # ------------------------------------------------------------------ CBMC back end
 def run_cbmc(u, ctx):
-    work = os.path.join(ctx.scratch, 'u_' + re.sub(r'\W', '_', u.name))
+    work = os.path.join(ctx.scratch, 'u_' + re.sub(r'\W', '_', u.name + '__' + u.inst + '__' + hashlib.md5(repr(sorted(u.defines.items())).encode()).hexdigest()[:6]))
     os.makedirs(work, exist_ok=True)
     inc = ['-I', ctx.gen, '-I', os.path.join(VERIF, 'ghost'), '-I', os.path.join(VERIF, 'specs')]
     gb, ib = os.path.join(work, 'a.gb'), os.path.join(work, 'b.gb')
